@@ -383,6 +383,9 @@ pub fn run(rep: &mut Report, thorough: bool) {
         for _ in 0..rng.range(1, 3) {
             b.sentinel(&mut rng, Mode::Pause, &StackShape::default(), None, None);
         }
+        // a thread with a private descriptor table: the handle stream describes the PROCESS's
+        // descriptors whichever thread is blamed
+        let private_fd_thread = b.thread(crate::spec::ThreadKind::PrivateFdTable, Some(b"privfds".to_vec()));
         // descriptors
         let nfds = *rng.pick(&[0usize, 1, 5, 30, 200]);
         for k in 0..nfds {
@@ -451,7 +454,7 @@ pub fn run(rep: &mut Report, thorough: bool) {
         };
         // dumps: (blamed, direct auxv variant)
         let worker = t.manifest.tids[0];
-        let variants: Vec<(i32, u8)> = vec![(t.pid, 0), (worker, 0), (t.pid, 1), (t.pid, 2), (t.pid, 3), (t.pid, 4)];
+        let variants: Vec<(i32, u8)> = vec![(t.pid, 0), (worker, 0), (t.pid, 1), (t.pid, 2), (t.pid, 3), (t.pid, 4), (t.manifest.tids[private_fd_thread], 0)];
         for (blamed, av) in variants {
             let mut o = DumpOpts::new(t.pid, blamed);
             let (expect_chain, which): (&ChainTruth, &str) = match av {
